@@ -42,6 +42,9 @@ type Outcome struct {
 	HistoryFP  string           // fingerprint of the recorded history (determinism self-test)
 	SimTime    time.Duration    // simulated time covered
 	Sample     any              // abbreviated description for the evidence file
+	// ReplayScenario, if set, replaces the generated scenario in the replay file (e.g. the
+	// scenario narrowed to the one fault plan that violated).
+	ReplayScenario any
 }
 
 func (o *Outcome) Count(k string, n int64) {
@@ -357,8 +360,14 @@ func RunWorker(t *testing.T, checks []Check) {
 		if pick == nil {
 			return // a different violation class: not the one being minimised
 		}
+		rsc := raw
+		if out.ReplayScenario != nil {
+			if b, err := json.Marshal(out.ReplayScenario); err == nil {
+				rsc = b
+			}
+		}
 		lastReplay = &ReplayFile{Property: prop, Seed: res.Seed, Class: pick.Class, Key: pick.Key, Detail: pick.Detail,
-			Violations: unknown, HistoryFP: out.HistoryFP, Scenario: raw}
+			Violations: unknown, HistoryFP: out.HistoryFP, Scenario: rsc}
 		rt.Fatalf("VIOLATION %s %s: %s", prop, pick.Class, pick.Detail)
 	}
 
